@@ -10,7 +10,7 @@
 // calls; CompileModule on BOTH engines.
 //
 // Tie C (monitors on the real code): panic escaping CompileModule; Go fatal error / crash of the child;
-// allocation > 4096 B per input byte + 64 MiB or time > 20 s + 100 µs per input byte (re-run alone before
+// allocation > 4096 B per input byte + 64 MiB or time > 60 s + 500 µs per input byte (re-run alone before
 // a verdict); engines disagree on accept/reject; every accepted module is instantiated (imports stubbed)
 // and its exports are called on both engines: any Go runtime error, BUG text or crash is a violation.
 // Tie B (model vs code, Lean oracle topic c03): LEB128 decoders/encoders (exhaustive 1–2 byte strings,
@@ -30,6 +30,7 @@ import (
 	"sort"
 	"strings"
 	"sync"
+	"sync/atomic"
 	"time"
 
 	"github.com/tetratelabs/wazero/verifharness/hx"
@@ -58,12 +59,23 @@ type Case struct {
 const (
 	allocPerByte  = 4096
 	allocConst    = 64 << 20
-	timeConst     = 20 * time.Second
-	timePerByte   = 100 * time.Microsecond
+	timeConst     = 60 * time.Second
+	timePerByte   = 500 * time.Microsecond
 	localsPolicy  = 50000 // the per-function locals cap other runtimes apply (finding F3b is "no such cap")
-	caseDeadline  = 120 * time.Second
-	aloneDeadline = 300 * time.Second
+	caseDeadline  = 100 * time.Second
+	aloneDeadline = 240 * time.Second
 )
+
+// deadlines scale with the input so that the big repository modules are not cut off under load
+func deadline(n int) time.Duration {
+	if d := timeBound(n) * 3 / 2; d > caseDeadline {
+		return d
+	}
+	return caseDeadline
+}
+func deadlineAlone(n int) time.Duration { return deadline(n) + aloneDeadline }
+
+var hangConfirmed int32
 
 func allocBound(n int) uint64       { return uint64(n)*allocPerByte + allocConst }
 func timeBound(n int) time.Duration { return timeConst + time.Duration(n)*timePerByte }
@@ -119,10 +131,7 @@ func panicSig(p string) string {
 		for _, f := range strings.Split(p[i+1:], " | ") {
 			if strings.Contains(f, ".go:") {
 				if loc == "" && fn != "" {
-					loc = f[strings.LastIndex(f, "/")+1:]
-					if j := strings.Index(loc, " "); j > 0 {
-						loc = loc[:j]
-					}
+					loc = sourceLoc(f)
 					break
 				}
 				continue
@@ -136,6 +145,35 @@ func panicSig(p string) string {
 		}
 	}
 	return strings.ReplaceAll(msg, " ", "-") + "@" + fn + "@" + loc
+}
+
+// sourceLoc turns a stack frame location "/path/file.go:123 +0x.." into "file.go:<text of that source
+// line>", so that the signature survives edits elsewhere in the file (falls back to the line number).
+func sourceLoc(frame string) string {
+	frame = strings.TrimSpace(frame)
+	if j := strings.Index(frame, " "); j > 0 {
+		frame = frame[:j]
+	}
+	base := frame[strings.LastIndex(frame, "/")+1:]
+	k := strings.LastIndex(frame, ":")
+	if k < 0 {
+		return base
+	}
+	var line int
+	fmt.Sscan(frame[k+1:], &line)
+	raw, err := os.ReadFile(frame[:k])
+	if err != nil || line <= 0 {
+		return base
+	}
+	lines := strings.Split(string(raw), "\n")
+	if line > len(lines) {
+		return base
+	}
+	txt := strings.Join(strings.Fields(lines[line-1]), "")
+	if len(txt) > 60 {
+		txt = txt[:60]
+	}
+	return base[:strings.LastIndex(base, ":")] + ":" + txt
 }
 
 func crashClass(stderr string) string {
@@ -181,16 +219,18 @@ func judge(c *Case, o Outcome, alone bool) string {
 	if o.Crash != "" {
 		// a single allocation request far beyond the address-space limit fails deterministically,
 		// whatever the load on the machine: no need to repeat it alone
-		if !alone && !(o.Crash == "exit" && hugeRequest(o.Stderr)) {
+		skipAlone := (o.Crash == "exit" && hugeRequest(o.Stderr)) || (o.Crash == "timeout" && atomic.LoadInt32(&hangConfirmed) > 0)
+		if !alone && !skipAlone {
 			rep.Count("rerun-alone:" + o.Crash)
-			return judge(c, pool.Alone(c.req(c.Mode), aloneDeadline), true)
+			return judge(c, pool.Alone(c.req(c.Mode), deadlineAlone(n)), true)
 		}
 		if o.Crash == "timeout" {
-			sig := "C03:no-answer-within-" + aloneDeadline.String()
+			atomic.AddInt32(&hangConfirmed, 1)
+			sig := "C03:no-answer-within-deadline"
 			if cs := cause(c); cs != "" {
 				sig = cs
 			}
-			violate(c, "impl-violation", sig, fmt.Sprintf("compiling/exercising a %d-byte input did not finish within %s when run alone", n, aloneDeadline), "an answer", o.Stderr)
+			violate(c, "impl-violation", sig, fmt.Sprintf("compiling/exercising a %d-byte input did not finish within %s (run alone once per run)", n, deadlineAlone(n)), "an answer", o.Stderr)
 			return "hang"
 		}
 		cls := crashClass(o.Stderr)
@@ -236,7 +276,7 @@ func judge(c *Case, o Outcome, alone bool) string {
 		if time.Duration(s.st.Ns) > timeBound(n) {
 			if !alone {
 				rep.Count("rerun-alone:slow")
-				return judge(c, pool.Alone(c.req(c.Mode), aloneDeadline), true)
+				return judge(c, pool.Alone(c.req(c.Mode), deadlineAlone(n)), true)
 			}
 			sig := "C03:time-disproportionate:" + s.name
 			if cs := cause(c); cs != "" {
@@ -399,7 +439,7 @@ func runCases(cases []*Case, par int) {
 						hx.Fatal("case %s: bad hex: %v", c.Name, err)
 					}
 				}
-				o := pool.Run(c.req(c.Mode), caseDeadline)
+				o := pool.Run(c.req(c.Mode), deadline(len(c.bin)))
 				v := judge(c, o, false)
 				account(c, o, v)
 				tieFrame(c, o)
